@@ -388,6 +388,119 @@ def arm_aliasing(res, rng, bt):
     res.see('aliasing-ok')
 
 
+def value_graph_ids(schema, acc=None, depth=0):
+    """ids of the constructed objects inside the DEFAULT value objects a schema carries (recursively)."""
+    acc = set() if acc is None else acc
+    if depth > 12 or not isinstance(schema, asn1base.ConstructedAsn1Type):
+        return acc
+    ct = schema.componentType
+    if isinstance(schema, univ.SequenceOfAndSetOfBase):
+        if ct is not None:
+            value_graph_ids(ct, acc, depth + 1)
+    else:
+        for nt in ct.namedTypes:
+            if nt.isDefaulted:
+                constructed_ids(nt.asn1Object, acc)
+            value_graph_ids(nt.asn1Object, acc, depth + 1)
+    return acc
+
+
+def mutate_deep(d, depth=0):
+    """Empty every constructed object reachable from d, innermost first."""
+    if depth > 12 or not isinstance(d, asn1base.ConstructedAsn1Type):
+        return
+    try:
+        if isinstance(d, univ.Choice):
+            try:
+                mutate_deep(d.getComponent(), depth + 1)
+            except error.PyAsn1Error:
+                pass
+        elif isinstance(d, univ.SequenceAndSetBase):
+            for i in range(len(d.componentType) or len(d)):
+                mutate_deep(d.getComponentByPosition(i, default=None, instantiate=False), depth + 1)
+        else:
+            for i in range(len(d)):
+                mutate_deep(d.getComponentByPosition(i, default=None, instantiate=False), depth + 1)
+        d.clear()
+    except Exception:
+        pass
+
+
+def default_read_case(rng, tier):
+    """A record with a DEFAULT component of constructed type (non-empty default) that the encoding leaves out."""
+    o = C.opts_for(tier, rng, allow_any=False, depth=2, big_strings=False)
+    for _ in range(40):
+        Td = U.gen_type(rng, o, depth=rng.choice([1, 2, 2]), ctx='field')
+        if U.base_of(Td)[0] not in ('seq', 'set', 'seqof', 'setof', 'choice'):
+            continue
+        dv = U.gen_value(rng, Td, o, small=True)
+        if dv in ([], {}, None):
+            continue
+        kind = rng.choice(['seq', 'set'])
+        T = (kind, (('f0', ('int',), 'req', None),
+                    ('f1', ('tag', 'E', 'C', 1, Td), 'def', dv),
+                    ('f2', ('tag', 'I', 'C', 2, ('octs',)), 'opt', None)))
+        if U.is_legal(T):
+            return ('c12-default-read', T, {'f0': rng.randint(0, 99), 'f1': dv})
+    return None
+
+
+def arm_default_read(res, case):
+    """Reading an absent DEFAULT component of a decoded result hands out a copy of the default: it must share no
+    mutable object with the type's own default value or with the copy another result hands out, and emptying it
+    must move neither the type nor the sibling result nor what a later decode returns."""
+    _, T, v = case
+    feats = U.type_features(T, v) | {'arm:default-read'}
+    res.see('default-read-cases')
+    try:
+        e = R.der(T, v)
+        schema = B.schema(T)
+        fp_s = B.fingerprint(schema)
+        want = U.canon(T, v)
+        d1, _ = ber_decoder.decode(e, asn1Spec=schema)
+        d2, _ = der_decoder.decode(e, asn1Spec=schema)
+    except Exception:
+        res.see('default-read-skipped')
+        return
+    try:
+        c1, c2 = d1['f1'], d2['f1']
+        if not (c1.isValue and c2.isValue):
+            res.witness('default-read-gives-no-value', feats, case, '')
+            return
+    except Exception as ex:
+        res.witness('default-read-raised', feats, case, ex)
+        return
+    ids1, ids2 = constructed_ids(d1), constructed_ids(d2)
+    ids_s = schema_ids(schema) | value_graph_ids(schema)
+    if ids1 & ids2:
+        res.witness('results-share-a-mutable-object', feats, case, '%d shared' % len(ids1 & ids2))
+        return
+    if (ids1 | ids2) & ids_s:
+        res.witness('result-shares-a-mutable-object-with-the-type', feats, case, '%d shared' % len((ids1 | ids2) & ids_s))
+        return
+    if B.fingerprint(schema) != fp_s:
+        res.witness('reading-a-result-changed-the-type', feats, case, '')
+        return
+    fp2 = B.fingerprint(d2)
+    mutate_deep(d1)
+    if B.fingerprint(schema) != fp_s:
+        res.witness('mutating-a-result-changed-the-type', feats, case, '')
+        return
+    if B.fingerprint(d2) != fp2:
+        res.witness('mutating-a-result-changed-a-sibling-result', feats, case, '')
+        return
+    try:
+        d3, _ = cer_decoder.decode(R.cer(T, v), asn1Spec=schema)
+        got = U.canon(T, B.absval(d3, T))
+    except Exception as ex:
+        res.witness('later-decode-raised-after-mutating-a-result', feats, case, ex)
+        return
+    if got != want:
+        res.witness('later-decode-differs-after-mutating-a-result', feats, case, repr(got)[:200])
+        return
+    res.see('default-read-ok')
+
+
 def arm_shared_subschema(res, rng, tier, T):
     """One sub-type object used in several places of a schema (x T, y T OPTIONAL, z SEQUENCE OF T): values that differ
     from place to place must come back as encoded, the shared object must stay as it was, results must not alias it."""
@@ -806,6 +919,10 @@ def run_shard(shard, tier, seed):
                     oc = opentype_case(rng, tier)
                     if oc is not None:
                         arm_opentypes(res, oc)
+                if i % 2 == 0:
+                    dc = default_read_case(rng, tier)
+                    if dc is not None:
+                        arm_default_read(res, dc)
                 pool.append(C.try_build(res, T, v))
                 if len(pool) >= 5:
                     group = pool[:rng.randint(2, 5)]
@@ -859,6 +976,8 @@ def replay(case):
                     break
         elif case[0] == 'c12-open':
             arm_opentypes(res, case)
+        elif case[0] == 'c12-default-read':
+            arm_default_read(res, case)
         elif case[0] in ('c12-history', 'c12-alias', 'c12-logging'):
             T, v = case[1], case[2]
             for s in range(30):
